@@ -3154,6 +3154,11 @@ impl<'a> FnTr<'a> {
                 None if self.reg.io.borrow().mode && (self.reg.structs.contains_key(&tyn) || self.reg.enums.contains_key(&tyn)) => {
                     Some(self.method_on_demand(&tyn, &segs[segs.len() - 1])?)
                 }
+                // builder A: a module-qualified free function the unit translates (`securityhelpers::calculate_mic`):
+                // the qualifier is a module (lower case, no type of that name)
+                None if tyn.chars().next().map(|ch| ch.is_lowercase()).unwrap_or(false) && !self.reg.structs.contains_key(&tyn) && !self.reg.enums.contains_key(&tyn) => {
+                    self.reg.fns.get(&segs[segs.len() - 1]).cloned()
+                }
                 None => None,
             }
         };
